@@ -143,7 +143,12 @@ Definition validate_constraints (d : pyval) (cs : list constr) (ch : children) :
   end.
 
 (* ------------------------------------------------------------------ types and universe *)
-Inductive ckind := KList | KSet | KFrozenSet | KVarTuple.
+(* KSeq / KColl / KAbsSet are the abstract spellings (Sequence, Collection, AbstractSet): deserialized like list / set,
+   they matter for serialization only (runtime class of the values, pass-through rules) *)
+Inductive ckind := KList | KSet | KFrozenSet | KVarTuple | KSeq | KColl | KAbsSet.
+
+Definition norm_kind (k : ckind) : ckind :=
+  match k with KSeq | KColl => KList | KAbsSet => KSet | other => other end.
 
 Inductive ty :=
 | TNone | TBool | TInt | TFloat | TStr | TAny
@@ -158,18 +163,44 @@ Inductive ty :=
 
 Inductive okind := KData | KNamedTuple | KTypedDict.
 
+(* order(...) metadata (apischema/ordering.py) *)
+Inductive ordering := OOrder (z : Z) | OAfter (x : string) | OBefore (x : string).
+
+(* skip(serialization_if=...) predicates used by the generated classes *)
+Inductive skipif := SkipNever | SkipIfNone | SkipIfZero | SkipIfEmptyStr.
+
+(* serialization-only attributes of a field (ignored by deserialization) *)
+Record fser := mkFS {
+  fs_skip_default : bool;      (* skip(serialization_default=True) *)
+  fs_skip_if : skipif;         (* skip(serialization_if=pred) *)
+  fs_none_undef : bool;        (* none_as_undefined *)
+  fs_undefined : bool;         (* the field type is a union with UndefinedType *)
+  fs_order : option ordering }.
+
+Definition no_fser : fser := mkFS false SkipNever false false None.
+
 Record fdef := mkF {
   fd_name : string; fd_alias : string; fd_ty : ty; fd_required : bool; fd_default : value;
   fd_fallback : bool;                  (* fall_back_on_default metadata (only meaningful with a default) *)
-  fd_con : option constraints }.       (* field-level schema(...) *)
+  fd_con : option constraints;         (* field-level schema(...) *)
+  fd_ser : fser }.
+
+(* a serialized method / property: constant result in the generated classes *)
+Record smeth_def := mkSM {
+  sm_name : string; sm_alias : string; sm_ty : ty; sm_result : value;
+  sm_undefined : bool;                 (* return type is a union with UndefinedType *)
+  sm_order : option ordering }.
 
 Record cdef := mkCls {
   cd_kind : okind; cd_fields : list fdef;
-  cd_depreq : list (string * list string) }.   (* dependent_required: field name -> names it requires *)
+  cd_depreq : list (string * list string);      (* dependent_required: field name -> names it requires *)
+  cd_methods : list smeth_def;                  (* serialized methods, in registration order *)
+  cd_order : list (string * ordering);          (* class-level order(...) overriding *)
+  cd_fields_set : bool }.                       (* decorated with with_fields_set *)
 
 Record univ := mkU { u_classes : list cdef; u_enums : list (list prim) }.
 
-Definition empty_cls : cdef := mkCls KData [] [].
+Definition empty_cls : cdef := mkCls KData [] [] [] [] false.
 Definition get_cls (u : univ) (c : nat) : cdef := nth c (u_classes u) empty_cls.
 Definition get_enum (u : univ) (e : nat) : list prim := nth e (u_enums u) [].
 
@@ -295,11 +326,11 @@ Fixpoint compile (o : dopts) (acc : option constraints) (t : ty) {struct t} : me
       let vm := compile o None t' in
       let cs := ocons cons_list acc in
       wrap_coerce o (Some CList)
-        match k with
+        match norm_kind k with
         | KSet => MSet cs vm
         | _ =>
             let lm := if o_nocopy o && check_only vm then MListCheck cs vm else MList cs vm in
-            match k with KVarTuple => MVarTuple lm | KFrozenSet => MFrozenSet lm | _ => lm end
+            match norm_kind k with KVarTuple => MVarTuple lm | KFrozenSet => MFrozenSet lm | _ => lm end
         end
   | TTuple ts => wrap_coerce o (Some CList) (MTuple (ocons cons_list acc) (map (compile o None) ts))
   | TMap kt vt =>
